@@ -20,27 +20,36 @@ MANIFEST = dict(
     text="Lean theorems over a value-tree model of nessai's writers (nessai/utils/io.py, FlowSampler.save_results/"
          "save_kwargs). The isinstance dispatch of NessaiJSONEncoder.default, the None sentinel of encode_for_hdf5, "
          "the extension table of save_results and the keys save_kwargs adds are regenerated from the source with "
-         "`ast` on every run (Gen/Encode.lean) and the theorems are re-proved against them: for every tree with "
-         "json-acceptable keys save_to_json never raises and json.load returns the canonical form made of native "
-         "values only (arrays -> nested lists with every element kept in order, numpy int/float scalars -> numbers "
-         "with the same bit pattern incl. NaN/inf, other objects -> str), plain trees read back identical, the "
-         "config file is readable for every string-keyed kwargs; for every nested dict with distinct single-segment "
-         "string keys, no empty sub-dict and no genuine sentinel string the HDF5 writer followed by the reader is "
-         "the identity (None preserved at any depth), with counter-example theorems showing each guard is needed "
-         "('/' in a key, empty dict, the string '__none__', non-str key); all three extension spellings select the "
-         "documented writer and anything else is rejected. Partial: structured arrays other than posterior_samples lose "
-         "their field names in JSON (`_partial` theorem = known finding); np.bool_ -> str, '/' keys and the sentinel "
-         "string are outside the property's quantifier: they stay in the model, in `_partial`/`_fails_without` "
-         "theorems and in the model==code boundary stream, the oracle makes no demand on them. Tie: the real save_to_json / "
-         "save_dict_to_hdf5 / FlowSampler.save_results / save_kwargs write generated trees (every value type of "
-         "results and kwargs, live-point dtypes, 0-d/empty arrays, depth <= 4) and REAL result dictionaries of a "
-         "tiny standard and a tiny importance run in json/hdf5/h5; files are read with json.load / h5py and compared "
-         "token by token with the model (floats as bit patterns / exact values) and field by field with the "
-         "in-memory values by an independent oracle.",
-    note="Assumed, not proved (validated by the correspondence): the json text layer incl. float repr round trip "
-         "and NaN/Infinity literals, ndarray.tolist, str(obj), float(np.longdouble), numpy's list->array coercion, "
-         "h5py's name normalisation, dtype support and `dataset[()]`. nessai ships no HDF5 reader: the reader used "
-         "is groups->dicts, datasets->values, bytes->str, '__none__'->None (the convention its tests document).",
+         "`ast` on every run (Gen/Encode.lean) and the theorems are re-proved against them. JSON: for every tree with "
+         "json-acceptable keys that are distinct as written in each dict and well-shaped arrays, save_to_json never "
+         "raises and json.load (dicts built by assignment) returns the canonical form made of native values only "
+         "(json_roundtrip; json_dispatch_matches_canon states that this is the generated dispatch carried through the "
+         "recursion); the canonical form is pinned independently: plain trees read back identical, numpy int/float "
+         "scalars -> the number with the same bit pattern, an array of any shape -> nested lists whose leaves are its "
+         "elements in order, a 1-d array -> its flat list; the config file is readable for all kwargs with distinct "
+         "string keys; counter-examples for a bad key, duplicate rendered keys ({1:..,'1':..}) and an ill-shaped tree. "
+         "HDF5: hdf5_roundtrip is about the full writer the real code is tied to (h5WriteFull: numpy/h5py leaf "
+         "conversion, then name linking, in write order): for nested dicts with distinct single-segment string keys, "
+         "no empty sub-dict, no genuine sentinel string and writable leaves it succeeds, equals the container-level "
+         "writer and reads back the same dict (None preserved at any depth) up to the leaf canonicalisation of h5py; "
+         "`_fails_without` theorems for '/' keys, empty dict, the sentinel string, non-str key, None inside a list, "
+         "ragged rows, opaque leaves. Extensions: the three spellings select the documented writer, anything else is "
+         "rejected. Partial: structured arrays other than posterior_samples lose their field names in JSON (`_partial` "
+         "theorem = known finding); np.bool_ -> str, '/' keys and the sentinel string are outside the property's "
+         "quantifier: model, theorems and model==code boundary stream only, no oracle demand. ORACLE-ONLY (no theorem): "
+         "the result-level clauses - which fields the real result dictionaries of both samplers hold and that they "
+         "equal the in-memory results (log_evidence, error, nested samples, posterior samples, weights, insertion "
+         "indices, history), and the posterior_samples -> dict-of-columns step of the JSON branch (model==code only). "
+         "Tie: the real save_to_json / save_dict_to_hdf5 / FlowSampler.save_results / save_kwargs write generated "
+         "trees (every value type of results and kwargs, live-point dtypes, 0-d/empty arrays, depth <= 4) and REAL "
+         "result dictionaries of tiny standard and importance runs in json/hdf5/h5; files are read with json.load / "
+         "h5py and compared token by token with the model (floats as bit patterns / exact values) and field by field "
+         "with the in-memory values by an independent oracle.",
+    note="Assumed, not proved (validated by the correspondence): the json text layer incl. float repr round trip, "
+         "NaN/Infinity literals and member order, ndarray.tolist, str(obj), float(np.longdouble), numpy's list->array "
+         "coercion, h5py's name normalisation, dtype support and `dataset[()]` (Model/EncodeLeaf.lean). nessai ships "
+         "no HDF5 reader: the reader used is groups->dicts, datasets->values, bytes->str, '__none__'->None (the "
+         "convention its tests document).",
     technique="Lean 4 proof (mutual structural induction over value trees; source-translated dispatch tables) + "
               "differential correspondence through temp files",
     ref="5/C19")
@@ -259,7 +268,8 @@ def json_in_scope(v):
         for k in v:
             if not (isinstance(k, (str, int, bool)) or k is None) or isinstance(k, np.generic) and not isinstance(k, str):
                 return False
-            ks.append(k if isinstance(k, str) else str(k))
+            ks.append(k if isinstance(k, str) else {True: "true", False: "false", None: "null"}[k]
+                      if isinstance(k, bool) or k is None else str(k))
         return len(set(ks)) == len(ks) and all(json_in_scope(x) for x in v.values())
     if isinstance(v, (list, tuple)):
         return all(json_in_scope(x) for x in v)
